@@ -639,8 +639,9 @@ def boolean_rows(a, b, operation=np.intersect1d):
     --------
     shared: (p, d) array containing rows in both a and b
     """
-    a = np.asanyarray(a, dtype=np.int64)
-    b = np.asanyarray(b, dtype=np.int64)
+    # the row view below needs C-contiguous rows
+    a = np.ascontiguousarray(a, dtype=np.int64)
+    b = np.ascontiguousarray(b, dtype=np.int64)
 
     av = a.view([("", a.dtype)] * a.shape[1]).ravel()
     bv = b.view([("", b.dtype)] * b.shape[1]).ravel()
